@@ -31,6 +31,23 @@ def core_docs():
     return res
 
 
+def block_shards(tier, cfgs, contexts=None, ctx_K=3, free_K=3, leaves=None):
+    """contextual + free L-space x the given configurations (used by the block-structure properties)"""
+    thorough = tier == "thorough"
+    sh = []
+    ctxs = contexts if contexts is not None else (S.CONTEXTS if thorough else S.CONTEXTS[:6])
+    leaves = leaves or ("small" if thorough else "tiny")
+    for P in ctxs:
+        lines = S.ctx_lines(P, S.LEAVES_SMALL if leaves == "small" else S.LEAVES_TINY)
+        for c in cfgs:
+            for f in lines:
+                sh.append(("ctx", P, leaves, f, ctx_K, c))
+    for c in cfgs:
+        for f in S.FREE_LINES:
+            sh.append(("free", f, free_K, c))
+    return sh
+
+
 def shards(tier, with_linkify_stub=True):
     sh = []
     thorough = tier == "thorough"
@@ -39,20 +56,20 @@ def shards(tier, with_linkify_stub=True):
     leaves = "small" if thorough else "tiny"
     for P in ctxs:
         lines = S.ctx_lines(P, S.LEAVES_SMALL if thorough else S.LEAVES_TINY)
-        for ci, _c in enumerate(MAIN_CFGS):
+        for c in MAIN_CFGS:
             for f in lines:
-                sh.append(("ctx", P, leaves, f, 3, ci))
+                sh.append(("ctx", P, leaves, f, 3, c))
     if thorough:
         # K=4 with the tiny leaf alphabet, two contexts that nest differently
         for P in ["> ", "- "]:
             lines = S.ctx_lines(P, S.LEAVES_TINY)
             for f in lines:
                 for g in lines:
-                    sh.append(("ctx4", P, f, g, 0))
+                    sh.append(("ctx4", P, f, g, MAIN_CFGS[0]))
     # free L-space
-    for ci in range(len(MAIN_CFGS)):
+    for c in MAIN_CFGS:
         for f in S.FREE_LINES:
-            sh.append(("free", f, 3, ci))
+            sh.append(("free", f, 3, c))
     # I-space
     for mi in range(2):
         for f in S.ATOMS:
@@ -83,20 +100,17 @@ def iter_shard(sh):
     """yield (cfg, mode, src); mode in {'doc','inline'} selects parse/render vs parseInline/renderInline"""
     kind = sh[0]
     if kind == "ctx":
-        _, P, leaves, f, K, ci = sh
+        _, P, leaves, f, K, c = sh
         lines = S.ctx_lines(P, S.LEAVES_SMALL if leaves == "small" else S.LEAVES_TINY)
-        c = MAIN_CFGS[ci]
         for d in S.docs_with_first(f, lines, K):
             yield c, "doc", d
     elif kind == "ctx4":
-        _, P, f, g, ci = sh
+        _, P, f, g, c = sh
         lines = S.ctx_lines(P, S.LEAVES_TINY)
-        c = MAIN_CFGS[ci]
         for d in S.docs_with_first(g, lines, 3):
             yield c, "doc", f + "\n" + d
     elif kind == "free":
-        _, f, K, ci = sh
-        c = MAIN_CFGS[ci]
+        _, f, K, c = sh
         for d in S.docs_with_first(f, S.FREE_LINES, K):
             yield c, "doc", d
     elif kind == "inl":
